@@ -186,4 +186,85 @@ Theorem C14_grammar_parse_file_pass_lines_wf :
      NoDup (concat (map ll_toks (pr_lines pr)))) (r_passes r).
 Proof. exact parse_file_pass_lines_wf. Qed.
 
+(* the grammar model: skip_token only ever skips a compiler directive (second side condition of C14_final_lines_cover, for every
+   input); the statement-list loop exits only at an ending context or at the end of the pass; with every pass consumed the final
+   lines cover every token; the Eof line *)
+From PasfmtVerif Require Import Model.ParserGrammar Proofs.ParserKernelProofs Proofs.ParserGrammarProofs Proofs.ParserGrammarRunProofs Proofs.ParserGrammarTypesProofs Proofs.ParserGrammarConsumedProofs Proofs.ParserGrammarCoverProofs Proofs.ParserGrammarEofProofs.
+Theorem C14_grammar_skips_only_compiler_directives :
+  forall (toks : list RawTokenType) (wsnl : list bool) (passes : list (list nat)),
+  let r := parse_file_with toks wsnl passes in
+  Forall2 (pr_skips_ok toks) (firstn (length (r_passes r)) passes) (r_passes r).
+Proof. exact parse_file_skips_directives. Qed.
+
+Theorem C14_grammar_statement_list_exit :
+  forall (pass : list nat) (wsnl : list bool) (fuel : nat) (t : ctype) 
+    (op : bool) (p : cpred) (s : pstate pass),
+  let s' := run pass wsnl fuel (C_stmt_list t op p) s in
+  ps_err pass s' = None -> is_ending pass s' = true \/ cur_tt pass s' = None.
+Proof. exact stmt_list_exit. Qed.
+
+Theorem C14_grammar_pass_consumed_or_ending :
+  forall (pass : list nat) (wsnl : list bool) (toks : list RawTokenType) (attr : list nat),
+  pass_in_range pass toks ->
+  eof_only_last pass toks ->
+  ps_err pass (parse_pass pass wsnl toks attr) = None ->
+  (length pass <= pidx pass (parse_pass pass wsnl toks attr))%nat \/
+  is_ending pass (top_exit pass wsnl toks attr) = true /\
+  cur_tt pass (top_exit pass wsnl toks attr) <> None.
+Proof. exact parse_pass_consumed_or_ending. Qed.
+
+Theorem C14_grammar_pass_consumed_if_stack_never_ending :
+  forall (pass : list nat) (wsnl : list bool) (toks : list RawTokenType) (attr : list nat),
+  pass_in_range pass toks ->
+  eof_only_last pass toks ->
+  ps_err pass (parse_pass pass wsnl toks attr) = None ->
+  never_ending_stack pass (top_exit pass wsnl toks attr) ->
+  (length pass <= pidx pass (parse_pass pass wsnl toks attr))%nat.
+Proof. exact parse_pass_consumed_never_ending. Qed.
+
+Theorem C14_grammar_lines_cover :
+  forall (toks : list RawTokenType) (wsnl : list bool),
+  let r := parse_file_with toks wsnl (all_passes toks) in
+  r_err r = None ->
+  Forall2 pass_consumed (all_passes toks) (r_passes r) ->
+  forall i : nat,
+  (i < length toks)%nat -> exists l : lline, In l (r_lines r) /\ In i (ll_toks l).
+Proof. exact parse_file_lines_cover. Qed.
+
+Theorem C14_grammar_model_lines_cover :
+  forall (toks : list RawTokenType) (wsnl : list bool),
+  let r := parse_file_model toks wsnl in
+  r_err r = None ->
+  Forall2 pass_consumed (all_passes toks) (r_passes r) ->
+  forall i : nat,
+  (i < length toks)%nat -> exists l : lline, In l (r_lines r) /\ In i (ll_toks l).
+Proof. exact parse_file_model_lines_cover. Qed.
+
+Theorem C14_grammar_eof_line :
+  forall (pass : list nat) (wsnl : list bool) (toks : list RawTokenType) 
+    (attr : list nat) (e : nat),
+  let s1 := top_exit pass wsnl toks attr in
+  ps_err pass (parse_pass pass wsnl toks attr) = None ->
+  nth_error pass (pidx pass s1) = Some e ->
+  S (pidx pass s1) = length pass ->
+  tt_at pass s1 e = Some RTT_Eof ->
+  exists l : lline,
+    In l (pass_lines pass (parse_pass pass wsnl toks attr)) /\
+    ll_toks l = [e] /\ ll_type l = LLT_Eof.
+Proof. exact parse_pass_eof_line. Qed.
+
+Theorem C14_grammar_eof_line_unique :
+  forall (pass : list nat) (wsnl : list bool) (toks : list RawTokenType) 
+    (attr : list nat) (e : nat),
+  increasing pass ->
+  let s1 := top_exit pass wsnl toks attr in
+  ps_err pass (parse_pass pass wsnl toks attr) = None ->
+  nth_error pass (pidx pass s1) = Some e ->
+  S (pidx pass s1) = length pass ->
+  tt_at pass s1 e = Some RTT_Eof ->
+  forall l' : lline,
+  In l' (pass_lines pass (parse_pass pass wsnl toks attr)) ->
+  In e (ll_toks l') -> ll_toks l' = [e].
+Proof. exact parse_pass_eof_line_unique. Qed.
+
 
